@@ -183,4 +183,137 @@ theorem cvtToFuzzyZScore_tile (sqrt : Rat → Rat) (k : Nat) (hk : 0 < k) (a : A
 example : minL (rep 3 [1, 4, 2]) = some 1 ∧ maxL (rep 3 [1, 4, 2]) = some 4 ∧ meanL (rep 3 [1, 4, 2]) = some (7 / 3) ∧ varL (rep 3 [1, 4, 2]) = varL [1, 4, 2] := by
   decide +kernel
 
+/-! ### the curve commands, the mean-to-mid commands and CvtToFuzzy with default thresholds on a repeated field -/
+
+theorem tile_curveArr (k : Nat) (a : Arr) (pts : List (Rat × Rat)) : curveArr (tile k a) pts = tile k (curveArr a pts) := by
+  simp only [curveArr, tile, rep_map]
+
+theorem curveBody_tile (k : Nat) (ref : LineRef) (a : Arr) (raw normal : List Rat) :
+    curveBody ref (tile k a) raw normal = (curveBody ref a raw normal).map (tile k) := by
+  unfold curveBody
+  split
+  · rfl
+  · split
+    · rfl
+    · split
+      · rfl
+      · simp only [Except.map, tile_curveArr]
+
+/-- the five statistics of the mean-to-mid commands (minimum, maximum, mean, mean of the lower part, mean of the upper part; zeros ignored or not)
+are those of the field -/
+theorem mtmStats_rep (k : Nat) (hk : 0 < k) (l : List Rat) (iz : Bool) : mtmStats (rep k l) iz = mtmStats l iz := by
+  unfold mtmStats
+  rw [minL_rep k hk, maxL_rep k hk]
+  cases minL l with
+  | none => rfl
+  | some low =>
+    cases maxL l with
+    | none => rfl
+    | some high =>
+      simp only
+      have hvs : (if iz then (rep k l).filter (· != 0) else rep k l) = rep k (if iz then l.filter (· != 0) else l) := by
+        cases iz <;> simp [rep_filter]
+      rw [hvs, meanL_rep k hk]
+      cases meanL (if iz then l.filter (· != 0) else l) with
+      | none => rfl
+      | some mean =>
+        simp only
+        rw [rep_filter, rep_filter, meanL_rep k hk, meanL_rep k hk]
+
+theorem mtmPoints_rep (k : Nat) (hk : 0 < k) (l : List Rat) (iz : Bool) (normal : List Num) : mtmPoints (rep k l) iz normal = mtmPoints l iz normal := by
+  unfold mtmPoints
+  rw [mtmStats_rep k hk]
+
+/-- **NormalizeMeanToMid / CvtToFuzzyMeanToMid on a repeated field** -/
+theorem meanToMidBody_tile (k : Nat) (hk : 0 < k) (a : Arr) (iz : Bool) (normal : List Num) :
+    meanToMidBody (tile k a) iz normal = (meanToMidBody a iz normal).map (tile k) := by
+  unfold meanToMidBody
+  rw [tile_valid, mtmPoints_rep k hk]
+  cases mtmPoints a.valid iz normal with
+  | error e => rfl
+  | ok rn => exact curveBody_tile k _ a rn.1 rn.2
+
+/-- **NormalizeCurveZScore / CvtToFuzzyCurveZScore on a repeated field** -/
+theorem curveZBody_tile (sqrt : Rat → Rat) (k : Nat) (hk : 0 < k) (a : Arr) (z normal : List Num) :
+    curveZBody sqrt (tile k a) z normal = (curveZBody sqrt a z normal).map (tile k) := by
+  unfold curveZBody
+  rw [tile_valid, meanL_rep k hk, varL_rep k hk]
+  split
+  · rfl
+  · cases meanL a.valid with
+    | none => rfl
+    | some m =>
+      cases varL a.valid with
+      | none => rfl
+      | some v =>
+        simp only
+        split
+        · rfl
+        · simp only [Except.map, tile_curveArr]
+
+theorem meanToMid_commands_tile (sqrt : Rat → Rat) (k : Nat) (hk : 0 < k) (a : Arr) (iz : Bool) (vals : List Num) :
+    exec sqrt (.normalizeMeanToMid iz vals) [tile k a] = (exec sqrt (.normalizeMeanToMid iz vals) [a]).map (tile k) ∧
+    exec sqrt (.cvtToFuzzyMeanToMid iz vals) [tile k a] = (exec sqrt (.cvtToFuzzyMeanToMid iz vals) [a]).map (tile k) := by
+  refine ⟨by simp only [exec]; exact meanToMidBody_tile k hk a iz vals, ?_⟩
+  simp only [exec]
+  rw [meanToMidBody_tile k hk, fuzzyClamp_map_tile]
+
+theorem curveZScore_commands_tile (sqrt : Rat → Rat) (k : Nat) (hk : 0 < k) (a : Arr) (z vals : List Num) :
+    exec sqrt (.normalizeCurveZScore z vals) [tile k a] = (exec sqrt (.normalizeCurveZScore z vals) [a]).map (tile k) ∧
+    exec sqrt (.cvtToFuzzyCurveZScore z vals) [tile k a] = (exec sqrt (.cvtToFuzzyCurveZScore z vals) [a]).map (tile k) := by
+  refine ⟨by simp only [exec]; exact curveZBody_tile sqrt k hk a z vals, ?_⟩
+  simp only [exec]
+  rw [curveZBody_tile sqrt k hk, fuzzyClamp_map_tile]
+
+theorem cvtToFuzzy_go_tile (sqrt : Rat → Rat) (k : Nat) (hk : 0 < k) (a : Arr) (tt ft : Option Num) (h2l : Bool) :
+    exec.go (tile k a) tt ft h2l = (exec.go a tt ft h2l).map (tile k) := by
+  unfold exec.go
+  rw [tile_valid, minL_rep k hk, maxL_rep k hk]
+  have key : ∀ (t f : Rat), fuzzyClamp (.ok (linMap t f 1 (-1) (tile k a))) = (fuzzyClamp (.ok (linMap t f 1 (-1) a))).map (tile k) := by
+    intro t f
+    rw [← tile_linMap]
+    exact fuzzyClamp_map_tile k (.ok (linMap t f 1 (-1) a))
+  cases minL a.valid with
+  | none =>
+    simp only
+    split
+    · split
+      · rfl
+      · exact key _ _
+    · rfl
+  | some mn =>
+    cases maxL a.valid with
+    | none =>
+      simp only
+      split
+      · split
+        · rfl
+        · exact key _ _
+      · rfl
+    | some mx =>
+      simp only
+      by_cases hc : (numOr tt (if h2l then mn else mx) == numOr ft (if h2l then mx else mn)) = true
+      · rw [if_pos hc, if_pos hc]; rfl
+      · rw [if_neg hc, if_neg hc]; exact key _ _
+
+/-- **CvtToFuzzy on a repeated field**, thresholds given or taken from the data (its minimum and maximum, in either direction) -/
+theorem cvtToFuzzy_tile (sqrt : Rat → Rat) (k : Nat) (hk : 0 < k) (a : Arr) (tt ft : Option Num) (dir : Option String) :
+    exec sqrt (.cvtToFuzzy tt ft dir) [tile k a] = (exec sqrt (.cvtToFuzzy tt ft dir) [a]).map (tile k) := by
+  simp only [exec]
+  cases dir with
+  | none => exact cvtToFuzzy_go_tile sqrt k hk a tt ft false
+  | some d =>
+    simp only
+    split
+    · rfl
+    · exact cvtToFuzzy_go_tile sqrt k hk a tt ft _
+
+/-- and the curve and category commands, whose mapping does not depend on the field at all -/
+theorem curve_commands_tile (sqrt : Rat → Rat) (k : Nat) (a : Arr) (raw vals : List Num) :
+    exec sqrt (.normalizeCurve raw vals) [tile k a] = (exec sqrt (.normalizeCurve raw vals) [a]).map (tile k) ∧
+    exec sqrt (.cvtToFuzzyCurve raw vals) [tile k a] = (exec sqrt (.cvtToFuzzyCurve raw vals) [a]).map (tile k) := by
+  refine ⟨by simp only [exec]; exact curveBody_tile k _ a _ _, ?_⟩
+  simp only [exec]
+  rw [curveBody_tile k, fuzzyClamp_map_tile]
+
 end MPilot.C05T
